@@ -441,6 +441,13 @@ for kt in ["application", "handshake"]:
       symbolic="both ratchets' generations: any u32 <= 2^32-2001 (independent), both secrets, gap 0..1", bounds="gap <= 1",
       assumes=["generations <= 2^32-2001", "gap <= 1"])
 
+for kt in ["application", "handshake"]:
+    H("c05_dispatch_%s_gap3" % kt, "c05_ooo.rs", ["C05", "C13"], "thorough", unwind=6, mem="M", stubs=ZSTUBS + _CUT + _BT + ["model: fresh-output CipherSuiteProvider (no log)"],
+      timeout_s=1200,
+      what="as c05_dispatch_%s with the requested generation up to 3 ahead (three keys parked in the requested ratchet's history)" % kt,
+      symbolic="both ratchets' generations: any u32 <= 2^32-2001 (independent), both secrets, gap 0..3", bounds="gap <= 3",
+      assumes=["generations <= 2^32-2001", "gap <= 3"])
+
 # --------------------------------------------------------------------------------------- C16 / C11 / C03a
 OUTSIDE["C16"] = ("the observer tracking roster / tree / context over histories, proposals it issues, snapshot/restore, signature and "
                   "proposal-rule checks (whole-program; Group-sized state)")
